@@ -53,6 +53,7 @@ st!(S6 { c: char, i: i8 });
 st!(S7 { u: (), n: N });
 st!(S8 { #[serde(default)] d: u32, x: String });
 st!(S9 { w: Vec<Option<u16>>, z: i64 });
+st!(S10 { h: u64, g: i16, k: i32, l: Option<u64>, m: Vec<u64> });   // with S0-S9: every integer width the codec has a method for
 
 fn run<'de, T: Deserialize<'de> + Canon>(input: &'de [u8]) -> J {
     match ohkami_lib::serde_urlencoded::from_bytes::<T>(input) {
@@ -97,7 +98,7 @@ pub fn run_case(c: &J) -> J {
         let v = c["value"].clone();
         return match tid {
             0 => ser::<S0>(&v), 1 => ser::<S1>(&v), 2 => ser2(&v), 3 => ser::<S3>(&v), 4 => ser::<S4>(&v),
-            5 => ser::<BTreeMap<String, String>>(&v), 6 => ser::<S6>(&v), 7 => ser::<S7>(&v), 8 => ser::<S8>(&v), 9 => ser::<S9>(&v),
+            5 => ser::<BTreeMap<String, String>>(&v), 6 => ser::<S6>(&v), 7 => ser::<S7>(&v), 8 => ser::<S8>(&v), 9 => ser::<S9>(&v), 10 => ser::<S10>(&v),
             _ => json!({"outcome": "bad-tid"}),
         }
     }
@@ -105,7 +106,7 @@ pub fn run_case(c: &J) -> J {
     match tid {
         0 => run::<S0>(&input), 1 => run::<S1>(&input), 2 => run::<S2>(&input), 3 => run::<S3>(&input),
         4 => run::<S4>(&input), 5 => run::<BTreeMap<String, String>>(&input), 6 => run::<S6>(&input),
-        7 => run::<S7>(&input), 8 => run::<S8>(&input), 9 => run::<S9>(&input),
+        7 => run::<S7>(&input), 8 => run::<S8>(&input), 9 => run::<S9>(&input), 10 => run::<S10>(&input),
         _ => json!({"outcome": "bad-tid"}),
     }
 }
